@@ -74,6 +74,8 @@ def check(ctx):
     s1_identities(ctx)
     s2_accumulators(ctx)
     s3_remark(ctx)
+    from . import c02
+    c02.refused_fill(ctx, 'C03.S2')       # reported P&L reflects accepted fills only
 
 
 def single(ctx, prop, orc, case):
